@@ -28,6 +28,7 @@ func runC11(w *World, r *Report) {
 	defer r.importRules(runC10, "C11-", map[string]bool{"C10-R10": true})
 	defer r.importRules(runC06, "C11-", map[string]bool{"C06-R6": true})
 	defer c11ReadersAfterState(w, r)
+	defer c13StopReleases(w, r, "C11-R11")
 	r.Rule("C11-R1", "no busy wait on a close-only channel", "in every blocking select inside a loop, a case that receives from a struct{} channel must leave the loop", 8)
 	r.Rule("C11-R2", "reference counting is paired", "Inc next to taskQuitFuncs.Insert; Dec dominated by GetAndRemove==ok; entityQuitFunc + delete(entity) dominated by refCnt.Load()==0 under the replicateEntityMap lock; no error return after Inc in startInternal", 6)
 	r.Rule("C11-R3", "memory follows the store", "every store to TaskInfo.State of a task held in cdcTasks is dominated by the success outcome of the persisted state update", 2)
